@@ -3,11 +3,13 @@ import vlib
 from props import initgen, drawgen
 
 PER_SHARD = 60
-CASE_TYPE = "(lcase * lout)"
+CASE_TYPE = "(c17case * c17out)"
 IMPORTS = "Require Import Corr.L2 Corr.DrawL."
 RULE = ("the real Builder::init of every built-in model x interface kind x option sets, with and without reset pin, reset pin, delay "
         "source and bus recorded on one timeline; plus drawing / orientation / sleep programs after init to confirm the pin is never "
-        "touched again; plus rejected configurations (nothing may happen); non-trivial = reset pin configured or unsupported pairing")
+        "touched again; plus rejected configurations (nothing may happen); plus, below the real "
+        "SpiInterface / ParallelInterface, an init whose k-th pin or bus operation fails (k = 0..3 and random up to 40) followed by a second init "
+        "over the same transport object: the retried init, decoded from the pins as the first attempt left them, must again begin with the reset; non-trivial = reset pin configured or unsupported pairing")
 TRUSTED = ["Oracle/InitSpec.v reset_first_ok"]
 ASSUMPTIONS = ["virtual time for the 10 us pulse"]
 
@@ -53,7 +55,33 @@ def gen(rng, tier, info):
                           rst=rst, use_size=True, opts=dict(f, w=w, h=h, ox=ox, oy=oy), ops=[], tags=["iface%d" % iface, "rst" if rst else "norst"],
                           nontrivial=True)
                 cases.append(drawgen.wrap_l(vlib.pcase(pc), True))
+    for c in cases:
+        c.coq = "C17L (%s)" % c.coq
+    # an initialisation that fails at its k-th pin / bus operation and is then RETRIED over the same transport object
+    # (`Builder::new(model, &mut di)`): the second attempt must again start with the reset, as the panel sees it
+    for mid in [i for i in sorted(mt.keys()) if i < 100]:
+        m = mt[mid]
+        for iface in (3, 4, 5):
+            if drawgen.KIND_OF_IFACE[iface] not in m["kinds"] or (iface == 5 and m["color"] != "Rgb565"):
+                continue
+            for rst in (False, True):
+                ks = [0, 1, 2, 3] + [rng.range(4, 40) for _ in range(2 if tier == "quick" else 12)]
+                for k in ks:
+                    if tier == "quick" and k >= 2 and rng.chance(1, 2):
+                        continue
+                    f = rng.choice(initgen.all_flag_opts())
+                    w, h, ox, oy = drawgen.window(rng, m["fw"], m["fh"])
+                    pc = dict(md=rng.choice(["d", "r"]), batch=True, model=mid, iface=iface, ifparam=rng.choice([3, 4, 7, 64]) if iface == 3 else 0,
+                              rst=rst, use_size=True, opts=dict(f, w=w, h=h, ox=ox, oy=oy), ops=[], init_fail=k,
+                              tags=["retry", "iface%d" % iface, "rst" if rst else "norst", "k=%d" % min(k, 4)], nontrivial=True)
+                    c = vlib.pcase(pc)
+                    c.line = "reinit" + c.line[len("prog"):]
+                    c.coq = "C17R (%s)" % c.coq
+                    cases.append(c)
     return cases
 
 
-wrap_impl = drawgen.wrap_impl_l
+def wrap_impl(case, impl):
+    if case.line.startswith("reinit"):
+        return impl          # already a C17RO term
+    return "C17LO (%s)" % drawgen.wrap_impl_l(case, impl)
